@@ -359,6 +359,13 @@ func init() {
 		}
 		nq := 1 + rng.Intn(3)
 		nt := 2 + rng.Intn(18)
+		// every eighth vector: bins of more than 12 candidates full of exact ties (few distinct targets, many copies),
+		// where an ordering that is not stable shows
+		crowded := i%8 == 3
+		if crowded {
+			nq = 1
+			nt = 16 + rng.Intn(24)
+		}
 		qs := make([]interface{}, nq)
 		for k := range qs {
 			qs[k] = symList(mk())
@@ -367,7 +374,7 @@ func init() {
 		pool := []string{}
 		for k := range ts {
 			s := mk()
-			if len(pool) > 0 && rng.Intn(4) == 0 {
+			if len(pool) > 0 && (rng.Intn(4) == 0 || (crowded && len(pool) >= 4)) {
 				s = pool[rng.Intn(len(pool))]
 			}
 			pool = append(pool, s)
@@ -387,6 +394,17 @@ func init() {
 			o["distall"] = 1 + rng.Intn(4)
 			if rng.Intn(2) == 0 {
 				o["sizetotal"] = 1 + rng.Intn(8)
+			}
+		}
+		if crowded {
+			o["push"], o["sizetotal"], o["sizeup"], o["sizedown"], o["sizeside"], o["sizesame"] = 0, 0, 0, 0, 0, 0
+			o["distall"] = w
+			o["thrnum"], o["thrtarget"] = 4, 10000
+			switch rng.Intn(3) {
+			case 0:
+				o["sizetotal"] = 12 + rng.Intn(nt)
+			case 1:
+				o["sizeup"], o["sizedown"], o["sizeside"], o["sizesame"] = 10+rng.Intn(nt), 10+rng.Intn(nt), 10+rng.Intn(nt), 1+rng.Intn(3)
 			}
 		}
 		if rng.Intn(4) == 0 {
